@@ -11,8 +11,17 @@ coordinate by coordinate with what the real pass / `from_groove` returned; (b) t
 under the vertex-list interpretation (lean/PyrollModel/OutCS.lean) is compared with the real result (same exception or
 same polygon up to the inserted collinear vertices, same measured widths); (c) resolution order of the real
 `OutProfile.cross_section` / `width` hooks; (d) closed formulas vs their python functions.
-The independent oracle checks the property text on really solved passes.
+WHEN the contour lines are built is part of the model as well: the memo of `contour_lines`, the bodies of
+`reevaluate_cache` along the MRO of the pass classes, the loop body of `Unit.solve` and `BaseRollPass.init_solve` are
+translated statement by statement into Gen/C08Cache.lean and instantiate the executable model lean/PyrollModel/OutCSCache.lean
+(theorems of part E: every iteration rebuilds the lines at the current gap; after the solve the out cross-section, the
+memo and the reported gap belong to the same gap); K (e): that model run on the gap values a spring hook really answered
+vs the state of the real pass after the solve.
+The independent oracle checks the property text on really solved passes - plain ones and SCENARIOS (steps on one pass
+instance: rarely given hook values, gap given as height / inscribed circle / by a hook that settles during the solution,
+attributes read before solve, gap changed between two solves), judged at the gap the pass reports afterwards.
 """
+import json
 import math
 import os
 
@@ -24,7 +33,7 @@ from ..core import LEAN_DIR
 ID = "C08"
 LEAN_MODULES = ["PyrollProps.C08"]
 MODEL = "c08"
-MODEL_MODULES = ["PyrollModel.Gen.C08", "PyrollModel.Gen.C08Geom", "PyrollModel.OutCSDriver"]
+MODEL_MODULES = ["PyrollModel.Gen.C08", "PyrollModel.Gen.C08Geom", "PyrollModel.Gen.C08Cache", "PyrollModel.OutCSDriver"]
 
 HP = "roll_pass/hookimpls/profile.py"
 H2 = "roll_pass/hookimpls/two_roll_pass.py"
@@ -123,6 +132,7 @@ def scan(tie=lambda s: None):
         T["refine"] = oc.extract_refine(_core(PP))
     except (pyexpr.Untranslatable, OSError) as ex:
         tie(f"translator: refine_cross_section is outside the translatable subset: {ex}")
+    T["cache"] = scan_cache(tie)
     for tag, given in FG_SCENARIOS:
         try:
             r = oc.extract_from_groove(_core(PP), given)
@@ -140,6 +150,87 @@ def scan(tie=lambda s: None):
     return T
 
 
+CHAIN_TAIL = ["HookHost"]               # after the unit classes of PASS_MRO; checked against the real MRO in run()
+
+
+def scan_cache(tie=lambda s: None):
+    """the memo of the contour lines and the protocol that invalidates it (-> Gen/C08Cache.lean, model OutCS.Cache):
+    {"memo": {which: (flags, reads, lineno)}, "chain": {which: [(class, ops, lineno)]}, "loop": (steps, init first, lineno),
+     "init": (ops, lineno)}; missing pieces are left out (and recorded as translator gaps)"""
+    C = {"memo": {}, "chain": {}, "loop": None, "init": None}
+    try:
+        files = oc.class_files(os.path.join(gen.REPO, "pyroll", "core"))
+    except OSError as ex:
+        tie(f"translator: pyroll/core: {ex}")
+        return C
+    for which, (rel, cls, n) in CONTOURS.items():
+        try:
+            C["memo"][which] = oc.extract_contour_memo(_core(rel), cls)
+        except (pyexpr.Untranslatable, OSError, AttributeError) as ex:
+            tie(f"translator: the memo of {cls}.contour_lines (pyroll/core/{rel}) is outside the translatable subset: {ex}")
+        chain = []
+        try:
+            for k in PASS_MRO[which] + CHAIN_TAIL:
+                if k not in files:
+                    raise pyexpr.Untranslatable(f"class {k} not found in pyroll/core")
+                r = oc.extract_reevaluate(files[k], k)
+                if r is not None:
+                    chain.append((k, r[0], r[1]))
+            C["chain"][which] = chain
+        except (pyexpr.Untranslatable, OSError) as ex:
+            tie(f"translator: reevaluate_cache along the MRO of {cls} is outside the translatable subset: {ex}")
+    try:
+        C["loop"] = oc.extract_solve_loop(files.get("Unit", _core("unit/unit.py")))
+    except (pyexpr.Untranslatable, OSError, AttributeError) as ex:
+        tie(f"translator: the solution loop of Unit.solve is outside the translatable subset: {ex}")
+    try:
+        C["init"] = oc.extract_init_solve_ops(_core("roll_pass/base.py"), "BaseRollPass")
+    except (pyexpr.Untranslatable, OSError, AttributeError) as ex:
+        tie(f"translator: BaseRollPass.init_solve (statement list) is outside the translatable subset: {ex}")
+    return C
+
+
+def emit_cache(ctx, C):
+    """Gen/C08Cache.lean; an untranslatable piece becomes a value under which the theorems of part E cannot hold"""
+    L = ["import PyrollModel.OutCSCache",
+         "/- GENERATED by driver/translate/c08_outcs.py from /repo's working tree on every run - do not edit. -/",
+         "namespace Gen.C08", "open OutCS.Cache", ""]
+    for which, (rel, cls, n) in CONTOURS.items():
+        m = C["memo"].get(which)
+        if m is not None:
+            L.append(f"/-- pyroll/core/{rel}:{m[2]} `{cls}.contour_lines`: memo guard first / built value stored; what it reads of the pass -/")
+            L.append(f"def {which}_memo : Memo := {{ guarded := {'true' if m[0]['guarded'] else 'false'}, stored := {'true' if m[0]['stored'] else 'false'} }}")
+            L.append(f"def {which}_memo_reads : List String := [" + ", ".join(pyexpr.lean_str(r) for r in m[1]) + "]")
+        else:
+            L.append(f"def {which}_memo : Memo := {{ guarded := true, stored := true }}")
+            L.append(f"def {which}_memo_reads : List String := [\"<untranslatable>\"]")
+        ch = C["chain"].get(which)
+        L.append(f"/-- `reevaluate_cache` along the MRO of `{cls}` (classes that define it, most derived first) -/")
+        if ch is not None:
+            L.append(f"def {which}_reevaluate : List (String × List ROp) := [" + ", ".join(
+                f"({pyexpr.lean_str(k)}, [" + ", ".join("." + o for o in ops) + "])" for (k, ops, _) in ch) + "]")
+        else:
+            L.append(f"def {which}_reevaluate : List (String × List ROp) := []")
+        L.append("")
+    if C["loop"] is not None:
+        L.append(f"/-- pyroll/core/unit/unit.py:{C['loop'][2]} `Unit.solve`: the calls of the solution loop's body in source order -/")
+        L.append("def solve_loop : List LStep := [" + ", ".join("." + o for o in C["loop"][0]) + "]")
+        L.append(f"def solve_init_first : Bool := {'true' if C['loop'][1] else 'false'}")
+    else:
+        L.append("def solve_loop : List LStep := []")
+        L.append("def solve_init_first : Bool := false")
+    if C["init"] is not None:
+        L.append(f"/-- pyroll/core/roll_pass/base.py:{C['init'][1]} `BaseRollPass.init_solve` statement by statement -/")
+        L.append("def init_solve_ops : List IOp := [" + ", ".join("." + o for o in C["init"][0]) + "]")
+    else:
+        L.append("def init_solve_ops : List IOp := []")
+    L += ["", "end Gen.C08"]
+    changed = pyexpr.write_if_changed(os.path.join(LEAN_DIR, "PyrollModel", "Gen", "C08Cache.lean"), "\n".join(L) + "\n")
+    ctx.notes.setdefault("generated", {})["Gen/C08Cache.lean"] = {
+        "memo": {w: m[0] for w, m in C["memo"].items()}, "chain": {w: [(k, o) for (k, o, _) in c] for w, c in C["chain"].items()},
+        "loop": C["loop"][0] if C["loop"] else None, "init": C["init"][0] if C["init"] else None, "rewritten": changed}
+
+
 def _missing_term():
     return ("src", "rollContour")
 
@@ -148,6 +239,7 @@ def translate(ctx):
     ctx.found = gen.emit_impl_module(ctx, ID, SELECTION)
     T = scan(ctx.tie_breaks.append)
     ctx.c08 = T
+    emit_cache(ctx, T["cache"])
     L = ["import PyrollModel.OutCS",
          "/- GENERATED by driver/translate/c08_outcs.py from /repo's working tree on every run - do not edit. -/",
          "namespace Gen.C08", "open OutCS", ""]
@@ -241,8 +333,15 @@ RULE = ("every groove class (20 parametric classes from a catalogue of feasible 
         "profile (round / box / diamond / square, taller than the pass) x prescribed width of the out profile given by a width "
         "hook on a throw-away pass subclass: default (no width model), under-filled, exactly the usable width, into the face "
         "padding, exactly the contour extent, within 1 % over (incl. just below 1.01), just above 1.01, well beyond; plus a "
-        "malformed stream (0, negative, nan, inf). Every case is a REAL `solve` of the pass. non-trivial = a width is prescribed "
-        "or gap > 0; distinct by (class, rounded parameters, gap, width/capacity, in-profile kind).")
+        "malformed stream (0, negative, nan, inf); a hair (rel. 1e-7..6e-3) below/above the usable width and below the extent. "
+        "Every case is a REAL `solve` of the pass. On top of ~20 % of the cases (45 % of the default-width ones) a SCENARIO = "
+        "steps on one pass instance: `config` (explicit informational targets target_filling_ratio / target_width / "
+        "target_cross_section_filling_ratio, iteration_precision 1e-6..3e-2, max_iteration_count, orientation; gap given as "
+        "height or inscribed circle diameter; contour_lines / usable_cross_section / height / gap / usable_width read before "
+        "solve), `sprung` (the gap is a hook: unloaded gap + compliance x roll force of the previous iteration, opening or "
+        "closing by 0.1..50 %), `regap` (instance created at another gap, looked at and/or solved there, gap or height set, "
+        "solved again); judged at the gap the pass reports. non-trivial = a width is prescribed or gap > 0; distinct by "
+        "(class, rounded parameters, gap, width/capacity, in-profile kind[, steps]).")
 ASSUMPTIONS = [
     "shapely/GEOS: Polygon / clip_by_rect / segmentize / is_valid are parameters of the term language (the term-level theorem "
     "holds for every interpretation); the vertex-list interpretation (half-plane clips walking along the ring) is validated "
@@ -252,6 +351,12 @@ ASSUMPTIONS = [
     "roll.contour_line and groove.contour_line have the same coordinates (C10 territory; checked on every case)",
     "IEEE rounding: theorems are over the reals; geometric comparisons use 1e-9 of the opening's size",
     "three rolls with gap exactly 0 are not generated: the usable cross-section raises there (known finding of C09)",
+    "memo/solution-loop model (part E): one memo (`_contour_lines`) and two cached hooks (gap, usable_cross_section); that the "
+    "gap enters the hook cache before the usable cross-section is an assumption of `recompute`, validated by K (e) on every "
+    "sprung scenario; the roll's own contour memo and convergence of the loop are not modelled",
+    "scenario clause `differs-from-fresh-pass`: 'for a given groove, gap and width it is the same shape' is read as: the shape "
+    "does not depend on how the pass instance was configured or used before (compared with a first solve of a fresh pass "
+    "that is given the reported gap and the same width directly)",
 ]
 
 CATALOGUE = {
@@ -281,7 +386,14 @@ ANGLES = {"flank_angle", "tip_angle", "rib_angle", "pad_angle"}
 JITTER = {"depth", "r2", "usable_width", "tip_depth", "r1"}
 PAD = {"two": 0, "three": 30}
 TURN = {"two": 180, "three": 120}
-WIDTH_KINDS = ["default", "under", "usable", "pad", "extent", "over-lt-1pc", "over-just-below", "over-just-above", "beyond"]
+WIDTH_KINDS = ["default", "under", "usable", "pad", "extent", "over-lt-1pc", "over-just-below", "over-just-above", "beyond",
+               # a hair off the two widths at which the construction changes character (the usable width: groove edge / face;
+               # the extent: end of the face): relative distance log-uniform 1e-7..6e-3, i.e. from just above the comparison
+               # tolerance to beyond every iteration precision / snapping distance a pass can reasonably carry
+               "near-usable-below", "near-usable-above", "near-extent-below"]
+# kinds whose classification does not depend on the gap of a two-roll pass and stays clear of the 1 % band: usable when the
+# gap of the pass is not known beforehand (gap given by a hook that settles during the solution)
+SAFE_KINDS = ["default", "under", "usable", "near-usable-below", "near-usable-above"]
 
 # past failures first (see notes/C08.md): (which, class, kwargs, gap / usable width, width kind)
 CORPUS = [
@@ -292,6 +404,19 @@ CORPUS = [
     ("three", "RoundGroove", dict(depth=15.55, r1=2, r2=15.8), 0.02, "over-just-above"),
     ("three", "UpsetBoxGroove", dict(depth=30, r1=5, r2=3, usable_width=20, ground_width=9.42038116), 0.05, "pad"),
     ("two", "ConstrictedBoxGroove", dict(depth=52, r1=15, r2=18, r4=10, usable_width=185.29, ground_width=157.62, indent=10), 0.01, "under"),
+    ("two", "BoxGroove", dict(depth=52, r1=15, r2=18, usable_width=185.29, ground_width=157.62), 0.05, "near-usable-below"),
+    ("two", "RoundGroove", dict(depth=15.55, r1=2, r2=15.8), 0.1, "near-usable-above"),
+]
+
+
+# kinds of USE under which the statement failed for a changed library although every plain case passed (notes/C08.md,
+# "Seeded changes"): (which, class, kwargs, gap / usable width, width kind, scenario)
+SCENARIO_CORPUS = [
+    ("two", "CircularOvalGroove", dict(depth=5.05, r1=7, r2=33), 0.05, "default", "config"),
+    ("three", "RoundGroove", dict(depth=15.55, r1=2, r2=15.8), 0.05, "default", "config"),
+    ("two", "RoundGroove", dict(depth=15.55, r1=2, r2=15.8), 0.06, "default", "sprung"),
+    ("three", "CircularOvalGroove", dict(depth=5.05, r1=7, r2=33), 0.04, "under", "sprung"),
+    ("two", "BoxGroove", dict(depth=52, r1=15, r2=18, usable_width=185.29, ground_width=157.62), 0.05, "near-usable-above", "regap"),
 ]
 
 
@@ -346,8 +471,11 @@ _PASS_CLASSES = {}
 
 
 def _pass_class(which):
-    """a throw-away subclass of the real pass class whose out profile has one more `width` implementation: the prescribed
-    width stored on the pass (None = no width model: the default answers).  Nothing is registered on pyroll's own classes."""
+    """a throw-away subclass of the real pass class with two more hook implementations, both silent (None) unless the pass
+    instance carries the attribute they look at: `OutProfile.width` = the prescribed width stored on the pass (None = no
+    width model: the default answers); `gap` = a mill spring, unloaded gap + compliance x roll force of the PREVIOUS
+    iteration (the roll force is a root hook: set on the pass at the end of every iteration), i.e. a gap that is not an input
+    but settles during the solution.  Nothing is registered on pyroll's own classes."""
     if which not in _PASS_CLASSES:
         import pyroll.core as pc
         base = pc.TwoRollPass if which == "two" else pc.ThreeRollPass
@@ -357,11 +485,25 @@ def _pass_class(which):
         def prescribed_width(self):
             return getattr(self.roll_pass, "c08_width", None)
         cls.OutProfile.width(prescribed_width)
+
+        def sprung_gap(self):
+            spring = self.__dict__.get("c08_spring")
+            if spring is None:
+                return None
+            g = spring[0] + spring[1] * self.roll_force if self.has_set("roll_force") else spring[0]
+            log = self.__dict__.get("c08_gap_log")
+            if log is not None:
+                log.append(float(g))
+            return g
+        cls.gap(sprung_gap)
         _PASS_CLASSES[which] = cls
     return _PASS_CLASSES[which]
 
 
-def _make_pass(which, groove, gap, width):
+def _make_pass(which, groove, gap, width, kwargs=None, given=None):
+    """`given` = how the roll gap is given: None -> `gap=gap`; {"height": h}; {"inscribed_circle_diameter": d} (three rolls);
+    {"spring": [unloaded gap, compliance]} (the `sprung_gap` hook of the throw-away class); `kwargs` = further explicit
+    hook values of the pass"""
     import pyroll.core as pc
     uw = float(groove.usable_width)
     extra = {}
@@ -369,8 +511,12 @@ def _make_pass(which, groove, gap, width):
         # the three-roll contact area goes through the contact-line machinery, which fails for under-filled passes
         # (EmptyPartError); it is no part of this property, so the value is supplied
         extra["contact_area"] = uw * uw
+    how = {"gap": gap} if given is None else {k: v for k, v in given.items() if k != "spring"}
     rp = _pass_class(which)(roll=pc.Roll(groove=groove, nominal_radius=10 * uw, rotational_frequency=1.0, neutral_point=0.0, **extra),
-                            gap=gap, velocity=1.0)
+                            velocity=1.0, **how, **(kwargs or {}))
+    if given is not None and "spring" in given:
+        rp.c08_spring = tuple(given["spring"])
+        rp.c08_gap_log = []
     if width is not None:
         rp.c08_width = width
     return rp
@@ -598,6 +744,14 @@ def _oracle(ctx, which, groove, gap, rp, w, outcome, geo, fg, replay):
         ctx.violation(f"{which}-out-cs-invalid{closed}", f"the outgoing cross-section is a {cs.geom_type} empty={cs.is_empty} "
                       f"valid={cs.is_valid}", replay)
         return
+    # 0. the prescribed width is what the pass reports for its out profile (`out_profile.width`, `filling_ratio`)
+    rpw, rfr = float(rp.out_profile.width), float(rp.out_profile.filling_ratio)
+    if abs(rpw - wexp) > 10 * tol:
+        ctx.violation(f"{which}-pass-reports-other-width", f"roll_pass.out_profile.width is {rpw}, prescribed "
+                      f"{'nothing (usable width ' + str(uw_pass) + ')' if w is None else wexp}", replay)
+    elif abs(rfr * uw_pass - wexp) > 10 * tol:
+        ctx.violation(f"{which}-filling-ratio", f"roll_pass.out_profile.filling_ratio is {rfr}: not width / usable width = "
+                      f"{wexp} / {uw_pass}", replay)
     # 1. within the opening
     if not region.buffer(tol).contains(cs):
         ctx.violation(f"{which}-not-contained{closed}", f"outgoing cross-section reaches outside the opening by area "
@@ -662,6 +816,228 @@ def _oracle_seed(ctx, which, groove, gap, geo, in_profile, replay):
 
 
 # --------------------------------------------------------------------------------------------------------------
+# scenarios: the same statement on passes that are configured, looked at, used and re-used in other ways
+# --------------------------------------------------------------------------------------------------------------
+READS = ["contour_lines", "usable_cross_section", "height", "gap", "usable_width"]
+SCENARIOS = ["config", "config", "sprung", "regap"]
+
+
+def _random_kwargs(rng, puw):
+    """explicit values for hooks of the pass that must not change the shape of the out profile: the informational filling
+    targets (they feed `filling_error` / `cross_section_error` only), solution control, display orientation"""
+    kw = {}
+    if rng.random() < 0.65:
+        t = rng.choice(["target_filling_ratio", "target_width", "target_cross_section_filling_ratio", "ratio+width"])
+        if t in ("target_filling_ratio", "ratio+width"):
+            kw["target_filling_ratio"] = rng.uniform(0.6, 1.08)
+        if t in ("target_width", "ratio+width"):
+            kw["target_width"] = puw * rng.uniform(0.6, 1.05)
+        if t == "target_cross_section_filling_ratio":
+            kw[t] = rng.uniform(0.7, 1.0)
+    if rng.random() < 0.35:
+        kw["iteration_precision"] = 10 ** rng.uniform(-6, -1.5)
+    if rng.random() < 0.2:
+        kw["orientation"] = rng.choice([90, 45, "vertical"])
+    if rng.random() < 0.15:
+        kw["max_iteration_count"] = rng.choice([2, 3, 5, 200])
+    return kw
+
+
+def _gap_as(rng, which, groove, gap):
+    """another way of giving the same roll gap: the pass height, or (three rolls) the inscribed circle diameter"""
+    attr = rng.choice(["height", "inscribed_circle_diameter"] if which == "three" else ["height"])
+    return attr, float(getattr(_make_pass(which, groove, gap, None), attr))
+
+
+def _scenario_steps(rng, name, which, groove, gap, w, puw, force):
+    """-> list of JSON-able steps executed on ONE pass instance (`_run_steps`); the statement is checked after the last
+    `solve`, at the gap the pass reports then"""
+    uw = float(groove.usable_width)
+    kwargs = _random_kwargs(rng, puw) if (name == "config" or rng.random() < 0.4) else {}
+    reads = [{"op": "read", "attr": a} for a in rng.sample(READS, rng.randrange(1, 4))] if rng.random() < 0.5 else []
+    if name == "config":
+        # explicit values for rarely given hooks; the gap given directly or through another dimension; the pass looked at
+        # before it is handed to solve
+        new = {"op": "new", "gap": gap, "width": w, "kwargs": kwargs}
+        if rng.random() < 0.4:
+            attr, v = _gap_as(rng, which, groove, gap)
+            new = {"op": "new", "given": {attr: v}, "width": w, "kwargs": kwargs}
+        return [new] + reads + [{"op": "solve"}]
+    if name == "sprung":
+        # the gap is no input: a hook value that depends on the roll force of the previous iteration and settles with it
+        ref = gap if gap > 0 else 0.02 * uw
+        rel = 10 ** rng.uniform(-3, math.log10(0.5)) * (-1 if (gap > 0 and rng.random() < 0.4) else 1)
+        return [{"op": "new", "given": {"spring": [gap, rel * ref / force]}, "width": w, "kwargs": kwargs}] + reads + [{"op": "solve"}]
+    # regap: the instance starts out at ANOTHER gap, is looked at and/or solved there, then the gap is set and it is solved
+    g_a = uw * 10 ** rng.uniform(-3, math.log10(0.5))
+    if rng.random() < 0.5:
+        attr, v_a, v_b = "gap", g_a, gap
+        new = {"op": "new", "gap": g_a, "width": w, "kwargs": kwargs}
+    else:
+        attr, v_a = _gap_as(rng, which, groove, g_a)
+        v_b = float(getattr(_make_pass(which, groove, gap, None), attr))
+        new = {"op": "new", "given": {attr: v_a}, "width": w, "kwargs": kwargs}
+    first = [{"op": "solve"}] if (not reads or rng.random() < 0.6) else []
+    return [new] + reads + first + [{"op": "set", "attr": attr, "value": v_b}, {"op": "solve"}]
+
+
+def _run_steps(which, groove, steps, ip):
+    """-> (pass, outcome of the last solve, an earlier solve raised)"""
+    rp, outcome, broken = None, None, False
+    for i, st in enumerate(steps):
+        op = st["op"]
+        if op == "new":
+            rp = _make_pass(which, groove, st.get("gap"), st.get("width"), st.get("kwargs"), st.get("given"))
+        elif op == "read":
+            try:
+                getattr(rp, st["attr"])
+            except Exception as ex:
+                if not _in_pyroll(ex):
+                    raise
+        elif op == "set":
+            setattr(rp, st["attr"], st["value"])
+        elif op == "solve":
+            outcome = _solve(rp, ip)
+            if outcome[0] != "ok" and i != len(steps) - 1:
+                broken = True
+        else:
+            raise ValueError(st)
+    return rp, outcome, broken
+
+
+def _scenario(ctx, T, which, desc, groove, steps, ip, replay, lean=None, monotone=True, lean0=None):
+    """run the steps, then check the statement at the gap the pass reports (`roll_pass.gap` after the last solve): the
+    opening is built from a FRESH pass that is given this gap directly"""
+    rp, outcome, broken = _run_steps(which, groove, steps, ip)
+    if broken or outcome is None:
+        ctx.count("scenario:earlier-solve-raised")
+        return
+    try:
+        gfin = float(rp.gap)
+        w = rp.__dict__.get("c08_width")
+        probe = _make_pass(which, groove, gfin, None)
+        geo = _opening(probe) if (math.isfinite(gfin) and (gfin > 0 or (which == "two" and gfin == 0))) else None
+        puw, height = (float(probe.usable_width), float(probe.height)) if geo else (None, None)
+    except Exception as ex:
+        if not _in_pyroll(ex):
+            raise
+        ctx.count("scenario:gap-unreadable:" + type(ex).__name__)
+        return
+    if geo is None:
+        ctx.count("scenario:gap-out-of-range")
+        return
+    raw, region, polys, scale = geo
+    cap = _capacity(which, polys)
+    if not (height > 1e-9 * scale and cap == cap and cap > 0):
+        ctx.count("scenario:opening-without-interior")
+        return
+    tol = 1e-9 * scale
+    wexp = puw if w is None else w
+    fg = _from_groove(groove, width=wexp, gap=gfin) if which == "two" else None
+    replay = dict(replay, reported_gap=gfin)
+    _oracle(ctx, which, groove, gfin, rp, w, outcome, geo, fg, replay)
+    if not (wexp > 0 and math.isfinite(wexp)):
+        return
+    if outcome[0] == "ok":
+        # for a given groove, gap and width the out profile is ONE shape: the shape a pass has that was given this gap and
+        # this width directly and is solved for the first time (for two rolls also compared with from_groove above)
+        fresh = _make_pass(which, groove, gfin, w)
+        fo = _solve(fresh, ip)
+        cs = outcome[1].cross_section
+        if fo[0] == "ok" and cs.geom_type == "Polygon" and not cs.is_empty and cs.is_valid and fo[1].cross_section.is_valid:
+            ref = fo[1].cross_section
+            d = cs.symmetric_difference(ref).area
+            if d > 1e-12 * ref.area or any(abs(a - b) > tol for a, b in zip(cs.bounds, ref.bounds)):
+                ctx.violation(f"{which}-differs-from-fresh-pass", f"width {wexp}, reported gap {gfin}: the out cross-section differs "
+                              f"by area {d} (of {ref.area}) from the one of a fresh pass given this gap and width", replay)
+        ctx.count("scenario:fresh-pass-compared")
+    model = getattr(ctx, "model_available", True) and T is not None
+    fn = T["resolved"].get((which, "cross_section")) if T else None
+    prog = next((r for (i, r) in T["hooks"] if i["fn"] == fn), None) if T else None
+    if not model or prog is None or (outcome[0] == "raised" and outcome[3] != "cross_section"):
+        return
+    # ---- K (a)/(b) on the scenario: the generated program at the REPORTED gap vs what the used pass returned ----------
+    uw, depth = float(groove.usable_width), float(groove.depth)
+    srcs = {"rollContour": rp.roll.contour_line, "grooveContour": groove.contour_line}
+    env = {"width": wexp, "gap": gfin, "roll.groove.usable_width": uw, "usable_width": puw, "groove.usable_width": uw,
+           "groove.depth": depth}
+    mine = _k_terms(ctx, T, which, fn, prog, srcs, env, outcome, replay)
+    log = rp.__dict__.get("c08_gap_log")
+    if log and outcome[0] == "ok" and lean0 is not None and len(lean0) <= LEAN_LINE_CAP + 400:
+        # ---- K (e): the model of memo / caches / solution loop (OutCS.Cache with the generated pieces) run on the gap
+        # values the spring hook really answered (one during init_solve, one per iteration) vs the state of the real pass
+        lean0.append((f"cache {which} " + " ".join(str(stub.bits(g)) for g in log),
+                      ("cache", _cache_verifier(T, which, rp, srcs, env, fn, prog)), replay))
+    if lean is not None and monotone:
+        valid = _observed_validity(T, prog, _lines_term(T, which), srcs, env)
+        lean.append(("env " + " ".join(f"{k}={stub.bits(v)}" for k, v in env.items()) + f" @valid={stub.bits(valid)}", ("env",), replay))
+        lean.append((f"run {which}_cross_section", ("run", "ok" if outcome[0] == "ok" else "raised", outcome[1] if outcome[0] == "raised" else None,
+                                                    outcome[1].cross_section if outcome[0] == "ok" else None,
+                                                    mine[2] if len(mine) > 2 else {}, tol), replay))
+
+
+def _cache_verifier(T, which, rp, srcs, env, fn, prog):
+    """what the used pass really holds after the solve, to be compared with the model's prediction {used, lines, ucs, gap}
+    (each a gap value): the out cross-section / the memoised contour lines / the cached usable cross-section must be, bit for
+    bit, what the generated terms give with the contour lines placed at the predicted gap; `gap` is what the pass reports"""
+    import numpy as np
+    real = {"gap": float(rp.gap),
+            "lines": np.concatenate([np.array(l.coords) for l in rp.contour_lines.geoms]),
+            "used": np.array(rp.out_profile.cross_section.exterior.coords),
+            "ucs": np.array(rp.usable_cross_section.exterior.coords)}
+    ufn = T["resolved"].get((which, "usable_cross_section"))
+    uprog = next((r for (i, r) in T["hooks"] if i["fn"] == ufn), None)
+    lines_term = _lines_term(T, which)
+
+    def verify(pred):
+        bad = []
+        if pred.get("gap") is None or pred["gap"] != real["gap"]:
+            bad.append(f"reported gap: model {pred.get('gap')}, pass {real['gap']}")
+        for key, build in (("lines", lambda e: _coords(eval_term(lines_term, srcs, e))),
+                           ("used", lambda e: np.array(eval_prog(T, prog, lines_term, srcs, e)[1].exterior.coords)),
+                           ("ucs", lambda e: np.array(eval_prog(T, uprog, lines_term, srcs, e)[1].exterior.coords))):
+            if key == "ucs" and uprog is None:
+                continue
+            g = pred.get(key)
+            if g is None:
+                bad.append(f"{key}: the model holds no value")
+                continue
+            try:
+                mine = build(dict(env, gap=g))
+            except Exception as ex:
+                bad.append(f"{key}: generated term at gap {g}: {type(ex).__name__}")
+                continue
+            if mine.shape != real[key].shape or not np.array_equal(mine, real[key]):
+                bad.append(f"{key}: not the generated construction with the contour lines at gap {g} (the pass reports {real['gap']})")
+        return bad
+    return verify
+
+
+def _k_terms(ctx, T, which, fn, prog, srcs, env, outcome, replay):
+    """K (a): the generated program evaluated over real shapely vs what the pass returned; -> the evaluation"""
+    import numpy as np
+    try:
+        mine = eval_prog(T, prog, _lines_term(T, which), srcs, env)
+    except Exception as ex:           # GEOS refusing the generated construction where the real one went through
+        mine = ("raised", type(ex).__name__, {})
+    real_kind = "ok" if outcome[0] == "ok" else "raised"
+    if mine[0] != real_kind or (real_kind == "raised" and mine[1] != outcome[1]):
+        ctx.disagreement(f"generated {fn} evaluated over shapely gives {mine[:2] if mine[0] == 'raised' else 'a polygon'}, the real "
+                         f"pass {outcome[:3] if outcome[0] == 'raised' else 'a polygon'}", replay)
+    elif real_kind == "ok":
+        a, b = np.array(outcome[1].cross_section.exterior.coords), np.array(mine[1].exterior.coords)
+        if a.shape != b.shape or not np.array_equal(a, b):
+            ctx.disagreement(f"generated {fn} evaluated over shapely differs from the real out cross-section "
+                             f"(coordinate by coordinate)", replay)
+        else:
+            ctx.validated()
+            ctx.count("term-eval-vertices-compared", len(a))
+    else:
+        ctx.validated()
+    return mine
+
+
+# --------------------------------------------------------------------------------------------------------------
 # one group of cases: one pass opening, several prescribed widths
 # --------------------------------------------------------------------------------------------------------------
 def _width_for(kind, rng, puw, cap, ext_raw):
@@ -683,6 +1059,12 @@ def _width_for(kind, rng, puw, cap, ext_raw):
         return cap * 1.0101
     if kind == "beyond":
         return cap * (1.01 + 10 ** rng.uniform(-3, 0))
+    if kind == "near-usable-below":
+        return puw * (1 - 10 ** rng.uniform(-7, -2.2))
+    if kind == "near-usable-above":
+        return puw * (1 + 10 ** rng.uniform(-7, -2.2))
+    if kind == "near-extent-below":
+        return cap * (1 - 10 ** rng.uniform(-7, -2.2))
     return {"zero": 0.0, "negative": -puw, "nan": float("nan"), "inf": float("inf")}[kind]
 
 
@@ -695,10 +1077,11 @@ def _same_polygon(a, b, tol):
     return a.symmetric_difference(b).area <= 1e-9 * max(a.area, b.area)
 
 
-def _group(ctx, T, which, desc, groove, gap, kinds, lean):
+def _group(ctx, T, which, desc, groove, gap, kinds, lean, force=None):
     import numpy as np
     from shapely import Polygon
     rng = ctx.rng
+    lean0 = lean
     uw, depth = float(groove.usable_width), float(groove.depth)
     probe = _make_pass(which, groove, gap, None)
     try:
@@ -765,6 +1148,34 @@ def _group(ctx, T, which, desc, groove, gap, kinds, lean):
             ctx.case([which, desc["cls"], round(math.log10(scale), 3), round(gap / uw, 9), kind, kind2, round(w2 / cap, 6)])
             _oracle(ctx, which, groove, gap, rp, w2, out2, geo, _from_groove(groove, width=w2, gap=gap) if which == "two" else None,
                     dict(replay, width_kind=kind2, width=w2, first_width=w, note="second solve of the same pass instance"))
+        if wexp > 0 and math.isfinite(wexp) and (force is not None or rng.random() < (0.45 if kind == "default" else 0.15)):
+            # the same case on a pass that is configured / looked at / used in another way (see `_scenario_steps`)
+            name = force or rng.choice(SCENARIOS)
+            F0 = None
+            if name == "sprung" and outcome[0] == "ok":
+                try:
+                    F0 = float(rp.roll_force)
+                except Exception as ex:
+                    if not _in_pyroll(ex):
+                        raise
+            if name == "sprung" and not (F0 is not None and math.isfinite(F0) and F0 > 0):
+                name = "config"
+            kind_s, w_s = kind, w
+            if name == "sprung" and kind not in SAFE_KINDS:
+                kind_s = rng.choice(SAFE_KINDS)
+                w_s = _width_for(kind_s, rng, puw, cap, ext_raw)
+            steps = _scenario_steps(rng, name, which, groove, gap, w_s, puw, F0)
+            ctx.count("scenario:" + name)
+            for st in steps:
+                if st["op"] == "new":
+                    for k in st.get("kwargs", {}):
+                        ctx.count("scenario-kwarg:" + k)
+                    ctx.count("scenario-gap-given-as:" + "+".join(sorted(st.get("given", {"gap": 0}))))
+            ctx.case([which, desc["cls"], round(math.log10(scale), 3), round(gap / uw, 9), kind_s, name,
+                      json.dumps(steps, sort_keys=True, default=str)])
+            _scenario(ctx, T, which, desc, groove, steps, ip,
+                      {"pass": which, "groove": desc, "scenario": name, "steps": steps, "width_kind": kind_s, "in_profile": in_kind,
+                       "in_height": float(ip.height), "capacity_at_first_gap": cap}, lean, monotone, lean0)
         if len(ctx.samples) < 4 and kind in ("pad", "beyond"):
             ctx.sample({k: replay[k] for k in ("pass", "groove", "gap", "width_kind", "width", "capacity")} |
                        {"outcome": outcome[0] if outcome[0] == "ok" else list(outcome[1:3])})
@@ -775,24 +1186,8 @@ def _group(ctx, T, which, desc, groove, gap, kinds, lean):
         # ---- K (a): the generated terms over real shapely vs what the pass returned -----------------------------------
         env = {"width": wexp, "gap": gap, "roll.groove.usable_width": uw, "usable_width": puw, "groove.usable_width": uw,
                "groove.depth": depth}
-        try:
-            mine = eval_prog(T, prog, _lines_term(T, which), srcs, env)
-        except Exception as ex:           # GEOS refusing the generated construction where the real one went through
-            mine = ("raised", type(ex).__name__, {})
+        mine = _k_terms(ctx, T, which, fn, prog, srcs, env, outcome, replay)
         real_kind = "ok" if outcome[0] == "ok" else "raised"
-        if mine[0] != real_kind or (real_kind == "raised" and mine[1] != outcome[1]):
-            ctx.disagreement(f"generated {fn} evaluated over shapely gives {mine[:2] if mine[0] == 'raised' else 'a polygon'}, the real "
-                             f"pass {outcome[:3] if outcome[0] == 'raised' else 'a polygon'}", replay)
-        elif real_kind == "ok":
-            a, b = np.array(outcome[1].cross_section.exterior.coords), np.array(mine[1].exterior.coords)
-            if a.shape != b.shape or not np.array_equal(a, b):
-                ctx.disagreement(f"generated {fn} evaluated over shapely differs from the real out cross-section "
-                                 f"(coordinate by coordinate)", replay)
-            else:
-                ctx.validated()
-                ctx.count("term-eval-vertices-compared", len(a))
-        else:
-            ctx.validated()
         envline = "env " + " ".join(f"{k}={stub.bits(v)}" for k, v in env.items())
         if lean is not None:
             # ---- K (b): the Lean Float run under the vertex-list interpretation ------------------------------------------
@@ -855,6 +1250,22 @@ def _check_lean(ctx, lean):
         elif exp[0] == "env":
             if o != "ok":
                 ctx.disagreement(f"model driver: {o!r} on an env line", replay)
+        elif exp[0] == "cache":
+            toks = o.split()
+            if not toks or toks[0] != "ok":
+                ctx.disagreement(f"model driver: {o[:80]!r} on a cache line", replay)
+                continue
+            try:
+                pred = {k: (None if v == "none" else stub.unbits(v)) for k, v in (t.split("=") for t in toks[1:])}
+            except Exception:
+                ctx.disagreement(f"model driver: unparsable answer {o[:80]!r} on a cache line", replay)
+                continue
+            bad = exp[1](pred)
+            if bad:
+                ctx.disagreement("memo/solution-loop model vs the pass after solve: " + "; ".join(bad), replay)
+            else:
+                ctx.validated()
+                ctx.count("cache-model-solves-compared")
         elif exp[0] == "run":
             _, kind, exc, geom, meas, tol = exp
             head, _, mpart = o.partition(" # ")
@@ -912,6 +1323,17 @@ def _check_resolution(ctx, T):
                                  f"{T['resolved'].get((which, hook))}", {"hook": hook})
             else:
                 ctx.validated()
+        # the generated reevaluate_cache chain names exactly the classes of the real MRO that define the method, in order
+        chain = (T.get("cache") or {}).get("chain", {}).get(which)
+        if chain is not None:
+            real_def = [k.__name__ for k in cls.__mro__ if "reevaluate_cache" in k.__dict__]
+            if real_def != [k for (k, _, _) in chain]:
+                ctx.disagreement(f"{cls.__name__}: reevaluate_cache is defined by {real_def} along the real MRO, the generated chain "
+                                 f"has {[k for (k, _, _) in chain]}", {"method": "reevaluate_cache"})
+            else:
+                ctx.validated()
+            if not isinstance(cls.__dict__.get("contour_lines", getattr(cls, "contour_lines", None)), property):
+                ctx.disagreement(f"{cls.__name__}.contour_lines is not a property", {})
         real = [f.name for f in cls.OutProfile.width.functions]
         # the default of the out profile's width must come before the measuring implementations of Profile.width
         if "width" not in real or real.index("width") != 0:
@@ -924,13 +1346,9 @@ def _sampler(rng, var):
     return math.exp(rng.uniform(-6, 1))
 
 
-def run(ctx):
-    import warnings
-    warnings.filterwarnings("ignore")
-    from . import common  # noqa: F401  (silences the pyroll logger)
-    rng = ctx.rng
+def _scan_for_run(ctx):
+    """the translation of this run (None when it is incomplete: then only the oracle runs)"""
     T = getattr(ctx, "c08", None)
-    model = getattr(ctx, "model_available", True)
     if T is None:                       # extended search re-enters run() without translate()
         try:
             T = scan()
@@ -939,8 +1357,16 @@ def run(ctx):
         except Exception:
             T = None
     complete = T is not None and len(T["lines"]) == 2 and len(T["helpers"]) == 2 and all(r is not None for (_, r) in T["hooks"])
-    if not complete:
-        T = None
+    return T if complete else None
+
+
+def run(ctx):
+    import warnings
+    warnings.filterwarnings("ignore")
+    from . import common  # noqa: F401  (silences the pyroll logger)
+    rng = ctx.rng
+    T = _scan_for_run(ctx)
+    model = getattr(ctx, "model_available", True)
     if model and T is not None:
         _check_resolution(ctx, T)
         found = getattr(ctx, "found", None)
@@ -954,6 +1380,10 @@ def run(ctx):
             desc = {"cls": cls, "kwargs": kw}
             g = _build_groove(desc)
             _group(ctx, T, which, desc, g, gf * float(g.usable_width), [kind, "default"], lean)
+        for (which, cls, kw, gf, kind, name) in SCENARIO_CORPUS:
+            desc = {"cls": cls, "kwargs": dict(kw, pad_angle=PAD[which])}
+            g = _build_groove(desc)
+            _group(ctx, T, which, desc, g, gf * float(g.usable_width), [kind], lean, force=name)
         done = 0
         while done < n_groups:
             which = "two" if rng.random() < 0.55 else "three"
@@ -991,6 +1421,14 @@ def replay(ctx, data):
     warnings.filterwarnings("ignore")
     from . import common  # noqa: F401
     g = _build_groove(r["groove"])
+    if "steps" in r:                     # a scenario: steps on one pass instance, judged at the gap it reports
+        which = r["pass"]
+        h = r.get("in_height")
+        if h is None:
+            h = 1.2 * max(float(_make_pass(which, g, st["gap"], None).height) for st in r["steps"] if st["op"] == "new" and "gap" in st)
+        T = _scan_for_run(ctx)
+        _scenario(ctx, T, which, r["groove"], g, r["steps"], _in_profile(r.get("in_profile", "round"), h, float(g.usable_width)), r)
+        return
     which, gap, w = r["pass"], r["gap"], r.get("width")
     probe = _make_pass(which, g, gap, None)
     geo = _opening(probe)
